@@ -1,0 +1,54 @@
+//go:build verif
+
+package ramfs
+
+import (
+	"fmt"
+
+	p9p "github.com/frobnitzem/go-p9p"
+)
+
+// Observation hooks for the external verification harness in /verif.
+// Compiled only with -tags verif.
+
+// VerifNewServer returns a fresh file server that does not share the
+// package-global tree, plus a validator that walks the tree and reports the
+// first node whose reference count differs from its number of parent links
+// (the invariant that must hold when every fid has been clunked).
+func VerifNewServer() (p9p.FileSys, func() error) {
+	fs := &fServer{lastpath: 1}
+	fs.root = &FileEnt{
+		nref:     1,
+		children: make(map[string]*FileEnt),
+		fs:       fs,
+		Info:     newDir(1, "/", "root", p9p.DMDIR|0775),
+	}
+	validate := func() error {
+		links := map[*FileEnt]int{fs.root: 1}
+		var order []*FileEnt
+		var visit func(f *FileEnt)
+		seen := map[*FileEnt]bool{}
+		visit = func(f *FileEnt) {
+			if seen[f] {
+				return
+			}
+			seen[f] = true
+			order = append(order, f)
+			for _, c := range f.children {
+				links[c]++
+				visit(c)
+			}
+		}
+		visit(fs.root)
+		for _, f := range order {
+			f.Lock()
+			n := f.nref
+			f.Unlock()
+			if n != links[f] {
+				return fmt.Errorf("node %q (qid path %d): nref = %d but %d parent links", f.Info.Name, f.Info.Qid.Path, n, links[f])
+			}
+		}
+		return nil
+	}
+	return fs, validate
+}
